@@ -65,18 +65,18 @@ def floors(tier):
   k = 1 if tier == 'quick' else 12
   f = {}
   for p in ('generalized', 'spring', 'positional'):
-    f['ev:batch_equals_solo:' + p] = 14 * k
+    f['ev:batch_equals_solo:' + p] = 8 * k
     f['ev:members_independent:' + p] = 8 * k
   f['ev:eager_equals_jit'] = 2 * (1 if tier == 'quick' else 10)
-  f['ev:wrapped_batch_equals_solo:scripted'] = 8 * k
+  f['ev:wrapped_batch_equals_solo:scripted'] = 6 * k
   f['ev:wrapped_members_independent:scripted'] = 6 * k
-  f['ev:wrapped_batch_equals_solo:env'] = 18 * (1 if tier == 'quick' else 4)
+  f['ev:wrapped_batch_equals_solo:env'] = 12 * (1 if tier == 'quick' else 4)
   f['ev:wrapped_members_independent:env'] = 10 * (
       1 if tier == 'quick' else 4)
   f['ev:domain_randomised_member_equals_solo'] = 4 * (
       1 if tier == 'quick' else 6)
   f['members_with_active_contact_or_limit'] = 6 * k
-  f['rollouts_with_episode_end'] = 6
+  f['rollouts_with_episode_end'] = 5
   return f
 
 
